@@ -12,6 +12,8 @@ PROPS = {
     "C20": {"engines": [
         {"name": "controller-concurrent", "pkg": "controller", "run": "^TestVerifC20Controller$", "race": True,
          "checks": {Q: 400, T: 32000}, "shards": {Q: 4, T: 16}, "timeout": {Q: 900, T: 5400}},
+        {"name": "layer2-burst", "pkg": "internal/layer2", "run": "^TestVerifC20Layer2Burst$", "shrinktime": "20s",
+         "checks": {Q: 8, T: 160}, "shards": {Q: 4, T: 16}, "timeout": {Q: 600, T: 1800}},
         {"name": "speaker-concurrent", "pkg": "speaker", "run": "^TestVerifC20Speaker$", "race": True,
          "checks": {Q: 400, T: 32000}, "shards": {Q: 4, T: 16}, "timeout": {Q: 900, T: 5400}},
     ]},
@@ -22,6 +24,8 @@ PROPS = {
     "C19": {"engines": [
         {"name": "frr-debouncer", "pkg": "internal/bgp/frr", "run": "^TestVerifC19Debounce$", "go": "go1.26.8",
          "checks": {Q: 10000, T: 1600000}, "shards": {Q: 2, T: 16}},
+        {"name": "frr-reload", "pkg": "internal/bgp/frr", "run": "^TestVerifC19Reload$", "go": "go1.26.8",
+         "checks": {Q: 3000, T: 320000}, "shards": {Q: 2, T: 16}},
         {"name": "frrk8s-debouncer", "pkg": "internal/k8s/controllers", "run": "^TestVerifC19FRRK8s$", "go": "go1.26.8",
          "checks": {Q: 6000, T: 800000}, "shards": {Q: 2, T: 16}},
     ]},
@@ -111,7 +115,9 @@ PROPS = {
     ]},
     "C08": {"engines": [
         {"name": "config", "pkg": "internal/config", "run": "^TestVerifC08Config$",
-         "checks": {Q: 80000, T: 4800000}, "shards": {Q: 2, T: 16}},
+         "checks": {Q: 80000, T: 16000000}, "shards": {Q: 2, T: 16}},
+        {"name": "parsecidr-fuzz", "kind": "fuzz", "pkg": "internal/config", "fuzz": "FuzzVerifC08ParseCIDR",
+         "fuzztime": {T: 90}, "tiers": [T]},
     ]},
     "C18": {"engines": [
         {"name": "toconfig", "pkg": "internal/k8s/controllers", "run": "^TestVerifC18ToConfig$",
@@ -121,11 +127,11 @@ PROPS = {
     ]},
     "C16": {"engines": [
         {"name": "update", "pkg": "internal/bgp/native", "run": "^TestVerifC16Update$",
-         "checks": {Q: 40000, T: 3200000}, "shards": {Q: 2, T: 16}},
+         "checks": {Q: 40000, T: 32000000}, "shards": {Q: 2, T: 16}},
         {"name": "open", "pkg": "internal/bgp/native", "run": "^TestVerifC16Open$",
-         "checks": {Q: 10000, T: 800000}, "shards": {Q: 1, T: 16}},
+         "checks": {Q: 10000, T: 8000000}, "shards": {Q: 1, T: 16}},
         {"name": "readopen", "pkg": "internal/bgp/native", "run": "^TestVerifC16ReadOpen$",
-         "checks": {Q: 40000, T: 3200000}, "shards": {Q: 2, T: 16}},
+         "checks": {Q: 40000, T: 32000000}, "shards": {Q: 2, T: 16}},
         {"name": "readopen-fuzz", "kind": "fuzz", "pkg": "internal/bgp/native", "fuzz": "FuzzVerifC16ReadOpen",
          "fuzztime": {T: 90}, "tiers": [T]},
     ]},
